@@ -213,6 +213,43 @@ class Folder:
             if isinstance(f, ast.Name) and f.id in ('tuple', 'list') and len(node.args) == 1:
                 v = ev(node.args[0])
                 return tuple(v) if f.id == 'tuple' else list(v)
+            # pure string methods on a constant
+            if isinstance(f, ast.Attribute) and f.attr in ('join', 'upper', 'lower', 'format', 'strip', 'replace') and not node.keywords:
+                base = ev(f.value)
+                if isinstance(base, str):
+                    args = [ev(a) for a in node.args]
+                    if f.attr == 'join' and len(args) == 1 and isinstance(args[0], (tuple, list)) and all(isinstance(x, str) for x in args[0]):
+                        return base.join(args[0])
+                    if f.attr in ('upper', 'lower', 'strip') and not args:
+                        return getattr(base, f.attr)()
+                    if f.attr in ('format', 'replace') and all(isinstance(x, (str, int)) for x in args):
+                        return getattr(base, f.attr)(*args)
+            # a module-level helper whose body is one return expression (string/table builders evaluated at import)
+            if isinstance(f, ast.Name) and f.id in getattr(mod, 'funcs', {}) and not (env and f.id in env):
+                fn = mod.funcs[f.id].node
+                body = [s_ for s_ in fn.body if not (isinstance(s_, ast.Expr) and isinstance(s_.value, ast.Constant))]
+                a = fn.args
+                if len(body) == 1 and isinstance(body[0], ast.Return) and body[0].value is not None and not a.kwonlyargs and not a.kwarg \
+                        and not node.keywords and not any(isinstance(x, ast.Starred) for x in node.args) and not fn.decorator_list:
+                    args = [ev(x) for x in node.args]
+                    params = [x.arg for x in a.posonlyargs + a.args]
+                    e2 = {}
+                    if len(args) < len(params) - len(a.defaults) or (len(args) > len(params) and not a.vararg):
+                        raise NotConst('call arity')
+                    for p_, v in zip(params, args):
+                        e2[p_] = v
+                    for p_, d in zip(params[len(params) - len(a.defaults):], a.defaults):
+                        if p_ not in e2:
+                            e2[p_] = self.eval(d, mod, None, cls)
+                    if a.vararg:
+                        e2[a.vararg.arg] = tuple(args[len(params):])
+                    self._depth = getattr(self, '_depth', 0) + 1
+                    try:
+                        if self._depth > 8:
+                            raise NotConst('helper recursion')
+                        return self.eval(body[0].value, mod, e2, cls)
+                    finally:
+                        self._depth -= 1
             raise NotConst('call')
         if isinstance(node, ast.Subscript):
             base = ev(node.value)
